@@ -393,6 +393,57 @@ func verifySign1[P any](wire []byte, pub crypto.PublicKey, payload *P, aad []byt
 		return outcome{"decode-error", err.Error()}
 	}
 	ok, err := t.Verify(pub, payload, aad)
+	fresh := outcome{"false", ""}
+	switch {
+	case err != nil:
+		fresh = outcome{"error", err.Error()}
+	case ok:
+		fresh = outcome{"true", ""}
+	}
+	// the same object decoded into a variable that held another object before (receivers reuse
+	// message structs): the outcome must not depend on what the variable held
+	if re := reusedSign1[P](wire, pub, payload, aad); re.verdict != "" && re.verdict != fresh.verdict {
+		re.detail = "decoded into a reused variable (fresh variable: " + fresh.verdict + ") " + re.detail
+		return re
+	}
+	return fresh
+}
+
+// primerSign1 is an unrelated object with more header parameters than the objects under test.
+func primerWire(tag uint64) []byte {
+	prot := cb.Map(cb.Uint(1), cb.Nint(6), cb.Uint(4), cb.Bstr([]byte("primer-kid")), cb.Uint(3), cb.Tstr("application/primer"))
+	un := cb.Map(cb.Uint(5), cb.Bstr(make([]byte, 12)), cb.Uint(4), cb.Bstr([]byte("unprotected-kid")))
+	return cb.Arr(cb.Bstr(prot.Encode()), un, cb.Bstr([]byte{0x01}), cb.Bstr(make([]byte, 64))).Encode()
+}
+
+func untagged(wire []byte) []byte {
+	n, err := cb.DecodeAll(wire)
+	if err != nil || n.Major != 6 || len(n.Kids) != 1 {
+		return nil
+	}
+	return wire[n.Kids[0].Start:n.Kids[0].End]
+}
+
+func reusedSign1[P any](wire []byte, pub crypto.PublicKey, payload *P, aad []byte) (o outcome) {
+	defer func() {
+		if r := recover(); r != nil {
+			o = outcome{"panic", libFrame() + " :: " + fmt.Sprint(r)}
+		}
+	}()
+	body := untagged(wire)
+	if body == nil {
+		return outcome{}
+	}
+	var t cose.Sign1[P, []byte]
+	var primer cose.Sign1[cbor.RawBytes, []byte]
+	if err := cbor.Unmarshal(primerWire(18), &primer); err != nil {
+		return outcome{} // the primer itself must decode; if not, this path says nothing
+	}
+	t.Header = primer.Header
+	if err := cbor.Unmarshal(body, &t); err != nil {
+		return outcome{"decode-error", err.Error()}
+	}
+	ok, err := t.Verify(pub, payload, aad)
 	if err != nil {
 		return outcome{"error", err.Error()}
 	}
